@@ -839,7 +839,14 @@ def workload(ctx, repo):
                     # (expanded) year, whose digits it could be mistaken for
                     for primer in ("+0019", "-0019", "+019", "-019", "19",
                                    "-19", "+00019"):
-                        c2 = dict(case, primer=primer)
+                        # (with the number of extra year digits under which
+                        # the primer is a century: 5 characters = 2, 4 = 1)
+                        nexp = {5: 2, 4: 1, 6: 3}.get(len(primer))
+                        cfg2 = dict(case["cfg"])
+                        if nexp is not None:
+                            cfg2["num_expanded_year_digits"] = nexp
+                        c2 = dict(case, primer=primer, cfg=cfg2,
+                                  expect=dict(case["expect"], cfg=cfg2))
                         ctx.case = c2
                         ctx.ev("cases.primed-truncated")
                         run_case(ctx, repo, c2)
